@@ -139,7 +139,11 @@ def matrix(tier, jobs=3):
             if rca:
                 return os.path.basename(d), "PATCH-DOES-NOT-APPLY", []
             rc, out = sh([PY, "-m", "vf.run", meta["property"], "--tier", tier], cwd=VERIF, env=dict(os.environ, VERIF_REPO=wt))
-            return os.path.basename(d), rc, re.findall(r"violated: (\S+)", out)[:3]
+            keys = re.findall(r"violated: (\S+) \[(\S+)\]", out)
+            if os.environ.get("SEEDED_RECORD"):
+                meta.setdefault("detected_by", {})["%s/%s" % (meta["property"], tier)] = {"exit": rc, "seed": int(os.environ.get("VERIF_SEED", "1")), "violations": ["%s [%s]" % k for k in keys][:6]}
+                json.dump(meta, open(os.path.join(d, "meta.json"), "w"), indent=1)
+            return os.path.basename(d), rc, [k[0] for k in keys][:3]
         finally:
             rm_worktree(wt)
             shutil.rmtree(os.path.join("/tmp", "vf-scratch-out", os.path.basename(wt)), ignore_errors=True)
